@@ -105,6 +105,14 @@ def run (cmd rest : String) : Option String :=
     let states := ops.foldl (fun (acc : List Table × Table) op =>
       let t' := applyOp acc.2 op; (acc.1 ++ [t'], t')) ([], t)
     pure (" || ".intercalate (states.1.map showTopo))
+  | "insert" => do
+    -- "p1:c1,p2:c2" | table   (insert_nodes on (parent, child) edges; topology only)
+    let (a, tb) ← split2 rest
+    let t ← parseTable tb
+    let es ← (strList a).mapM fun e => match e.splitOn ":" with
+      | [p, c] => do pure ((← p.toInt?), (← c.toInt?))
+      | _ => none
+    pure (showTopo (insertNodes t es []))
   | "distal" => do
     let (a, tb) ← split2 rest
     let t ← parseTable tb
